@@ -40,7 +40,7 @@ def classify(r, st, bits):
         return "D_AbsTrunc16"
     if k == "ins" and mn in ("DIV", "MUL", "IDIV") :
         return "D_Group3"
-    if k == "br" and (st["tgt"].get("nm") == "nowhere" or str(st["tgt"].get("nm", "")).startswith("FWD")):
+    if k == "br" and (st["tgt"].get("nm") in ("nowhere", "_gund") or str(st["tgt"].get("nm", "")).startswith("FWD")):
         return "D_UndefinedIsZero"
     if k == "ins" and mn == "MOV" and sh == ["s", "s"]:
         return "D_SregAsGpr"
